@@ -3,3 +3,5 @@
 package store
 
 func verifYield(string) {}
+
+func verifRecover(string) {}
